@@ -346,7 +346,7 @@ def run_nd(case):
         core.must_raise(f, exc.types, what, sig=sig)
     else:
         res = lib(f, what=what, sig=sig)
-        im.check_getitem(res, vals, dims, labels, descs, what, sig=sig)
+        im.check_getitem(res, vals, dims, labels, descs, what, sig=sig, kinds=True)
     core.expect_unchanged(a, snap, what, sig=sig)
     cl = []
     sl_dims = [i for i, d in enumerate(descs) if d["k"] in ("slice", "pslice")]
